@@ -1145,6 +1145,15 @@ variable [LinearOrder V]
 
 /-- in a coherent parameter set the mask arithmetic of `create_model_params_dict` /
 `create_src_params_recarray` never raises and yields the entries in the order floating, fixed -/
+theorem maskSelNp_of_ok {α : Type} {xs : List α} {m : List Bool} {r : List α} (h : maskSel xs m = .ok r) :
+    maskSelNp xs m = .ok r := by
+  cases m with
+  | nil =>
+    cases xs with
+    | nil => simpa [maskSel, maskSelNp] using h
+    | cons x xs => simp [maskSel] at h
+  | cons b bs => exact h
+
 theorem rowEntries_eq {gps : PSet V} (hs : Coherent gps) (row : List (Option String)) (g : List V)
     (hl : row.length = gps.params.length) (hg : g.length = gps.floatNames.length) :
     PMM.rowEntries gps row g = .ok (flEntries gps.params row 0 g ++ fxEntries gps.params row 0) := by
@@ -1163,7 +1172,9 @@ theorem rowEntries_eq {gps : PSet V} (hs : Coherent gps) (row : List (Option Str
       ((gps.params.filter (·.isfixed)).map (·.value)) hl (by simp) (by simp)
   unfold PMM.rowEntries
   simp only [Nat.cast_zero] at a3
-  simp only [hfm, hs.mask, hc.fixedVals, List.range_eq_range', a1, a2, a3, b1, b2, b3, a4, b4]
+  simp only [hfm, hs.mask, hc.fixedVals, List.range_eq_range', maskSelNp_of_ok a1, maskSelNp_of_ok a2,
+    maskSelNp_of_ok a3, maskSelNp_of_ok b1, maskSelNp_of_ok b2, maskSelNp_of_ok b3, maskSelNp_of_ok a4,
+    maskSelNp_of_ok b4]
   rw [List.filterMap_append, zip3_append _ _ _ _ _ _ a5 (by simpa using a6), a7, b7,
     ← flEntries_eq, ← fxEntries_eq]
 
